@@ -977,8 +977,8 @@ class Mesh:
             Scale each dimension by a factor.
 
         """
-        if isinstance(factors, float):
-            # for backwards compatibility
+        if np.ndim(factors) == 0:
+            # one factor for all dimensions
             factors = self.doflocs.shape[0] * [factors]
         return replace(
             self,
